@@ -233,6 +233,27 @@ func c20Leaf(in, out E3Val, viaJSON bool) string {
 	return kind(in) + "-to-" + kind(out)
 }
 
+// c20HasInteger: does the value hold an integer-typed number at any depth?
+func c20HasInteger(v E3Val) bool {
+	switch v.Kind {
+	case KInt, KUint:
+		return true
+	case KArr:
+		for _, x := range v.Arr {
+			if c20HasInteger(x) {
+				return true
+			}
+		}
+	case KMap:
+		for _, kv := range v.Map {
+			if c20HasInteger(kv.Val) {
+				return true
+			}
+		}
+	}
+	return false
+}
+
 func c20Compare(in, out E3Val, classes map[string]string, viaJSON bool) []c20Diff {
 	var diffs []c20Diff
 	count := map[string]int{}
@@ -258,6 +279,12 @@ func c20Compare(in, out E3Val, classes map[string]string, viaJSON bool) []c20Dif
 			continue
 		}
 		ov, _ := out.Get(kv.Key)
+		if viaJSON && e3Equiv(iv, ov, viaJSON) && c20HasInteger(ov) {
+			// "JSON numbers becoming floats": JSON has one number type; an integer on the way
+			// out is a kind change (and makes the value depend on which JSON path it took)
+			diffs = append(diffs, c20Diff{Key: kv.Key, Class: cls, What: "altered", Kind: c20KindName(iv), In: &iv, Out: &ov, Leaf: "json-number-to-integer"})
+			continue
+		}
 		if !e3Equiv(iv, ov, viaJSON) {
 			diffs = append(diffs, c20Diff{Key: kv.Key, Class: cls, What: "altered", Kind: c20KindName(iv), In: &iv, Out: &ov, Leaf: c20Leaf(iv, ov, viaJSON)})
 		}
